@@ -325,6 +325,7 @@ func progressPhase(run *vkit.Run, n int) *feedModel {
 			}
 		}
 		run.Count("requests_observed_at_servers", int64(len(r.reqs)))
+		run.Count("progress_requests_answered_genuine_then_forged", int64(r.goodForge))
 		if len(kinds) == 2 {
 			run.Distinct(fmt.Sprintf("progress|%s|lat=%v|local=%.1f|big=%v", describeServers(specs), latOn, localProb, big))
 		}
